@@ -79,7 +79,7 @@ Qed.
 Definition input_ids (skipped : bool) (b : ibind) : list Z :=
   if skipped then [] else ids_of (ib_mods b) ++ ids_of (ib_conds b).
 Definition skipped (r : raw) (c : consumed) (dev : device) (b : ibind) : bool :=
-  ib_ignored b && as_bool (reader_value r c dev (ib_input b)).
+  ib_ignored b && as_bool (reader_value r consumed_reset dev (ib_input b)).
 
 Lemma input_step_ids m tm r c dev a st b :
   let '(st', b') := input_step m tm r c dev a st b in
@@ -87,7 +87,7 @@ Lemma input_step_ids m tm r c dev a st b :
   ids_of (ib_mods b') = ids_of (ib_mods b) /\ ids_of (ib_conds b') = ids_of (ib_conds b) /\ ib_input b' = ib_input b.
 Proof.
   unfold input_step, input_ids, skipped.
-  destruct (ib_ignored b && as_bool (reader_value r c dev (ib_input b))).
+  destruct (ib_ignored b && as_bool (reader_value r consumed_reset dev (ib_input b))).
   - rewrite app_nil_r. repeat split.
   - pose proof (apply_mods_ids m tm (reader_value r c dev (ib_input b)) (ib_mods b)) as Hm.
     destruct (apply_mods m tm (reader_value r c dev (ib_input b)) (ib_mods b)) as [[ms' v'] lg1]. destruct Hm as [Hm1 Hm2].
